@@ -61,11 +61,36 @@ def extras(prop, rep):
             res = seedcheck.run(sid, [prop])
             x = res.get(prop, {})
             seeds.append({"seed": sid, "caught_by_this_check": x.get("rc") == 1, "keys": x.get("keys", [])[:3]})
-    rep.extra["self_validation"] = {"summary": summary, "variants": details, "seeded_changes": seeds,
+    # behaviour-preserving churn written by independent agents: this check must stay silent on every patch
+    churn = {"patches": 0, "silent": 0, "alarms": []}
+    try:
+        import benigncheck
+        from concurrent.futures import ThreadPoolExecutor
+        work = []
+        if os.path.isdir(benigncheck.CHURN):
+            for g in sorted(os.listdir(benigncheck.CHURN)):
+                gd = os.path.join(benigncheck.CHURN, g)
+                if os.path.isdir(gd):
+                    work += [(g, f) for f in sorted(os.listdir(gd)) if f.endswith(".diff")]
+        with ThreadPoolExecutor(max_workers=12) as ex:
+            res = list(ex.map(lambda gf: benigncheck.run_one(gf[0], gf[1], [prop]), work))
+        for (g, f), r in zip(work, res):
+            churn["patches"] += 1
+            if not r:
+                churn["silent"] += 1
+            else:
+                churn["alarms"].append({"patch": "%s/%s" % (g, f), "keys": (r.get(prop) or {}).get("keys", [])[:3] if isinstance(r.get(prop), dict) else str(r)[:120]})
+    except Exception as e:  # the corpus run is about the checker; it never decides the property
+        churn["error"] = repr(e)[:200]
+    rep.extra["self_validation"] = {"summary": summary, "variants": details, "seeded_changes": seeds, "churn": churn,
                                     "note": "run on scratch copies outside /repo and /verif; static analysis only, the variants are never executed"}
     rep.notes.append("self-validation: %d/%d mutants caught, %d/%d benign silent, %d skipped; seeds of this property caught by this check: %d/%d"
                      % (summary["caught"], summary["mutants"], summary["silent"], summary["benign"], len(summary["skipped"]),
                         sum(1 for s in seeds if s["caught_by_this_check"]), len(seeds)))
+    rep.notes.append("churn: %d/%d behaviour-preserving refactorings silent%s" % (churn["silent"], churn["patches"],
+                     "" if not churn["alarms"] else " (alarms: %s)" % ", ".join(a["patch"] for a in churn["alarms"])))
+    for a in churn["alarms"]:
+        print("SELFVAL-FALSE-ALARM property=%s churn=%s" % (prop, a["patch"]))
     for m in summary["missed"]:
         print("SELFVAL-MISSED property=%s mutant=%s" % (prop, m))
     for m in summary["false_alarms"]:
